@@ -157,9 +157,29 @@ func progProp(c ProgCase) error {
 			pbt.Excluded("unspecified:printf-c-or-negative-hex")
 			return nil
 		}
-		got := ti.TParm(call.Prog, toArgs(call.Params)...)
+		// The caller's argument slice is its own: a prefix of a longer array,
+		// passed as args... It must come back untouched (elements, and what lies
+		// behind the prefix), so that evaluating again gives the same output.
+		fresh := toArgs(call.Params)
+		backing := make([]interface{}, len(fresh), len(fresh)+10)
+		copy(backing, fresh)
+		tail := backing[len(fresh) : len(fresh)+10]
+		for k := range tail {
+			tail[k] = "sentinel"
+		}
+		got := ti.TParm(call.Prog, backing...)
 		if got != want {
 			return fmt.Errorf("call %d: TParm(%q, %v) = %q, terminfo(5) reference gives %q", i, call.Prog, toArgs(call.Params), got, want)
+		}
+		for k := range fresh {
+			if backing[k] != fresh[k] {
+				return fmt.Errorf("call %d: TParm(%q, args...) changed the caller's args[%d] from %v to %v", i, call.Prog, k, fresh[k], backing[k])
+			}
+		}
+		for k := range tail {
+			if tail[k] != "sentinel" {
+				return fmt.Errorf("call %d: TParm(%q, args[:%d]...) wrote %v behind the caller's slice (element %d of the backing array)", i, call.Prog, len(fresh), tail[k], len(fresh)+k)
+			}
 		}
 	}
 	return nil
